@@ -609,28 +609,34 @@ def oracle(case: dict, config: str, rng: random.Random, law=None, user_clause=No
                      codec=show(c), explicit=show(x))
     # -- inside the quantifier: valid JSON, round trip
     paired = (e is None) == (d is None)
-    if case.get("inq") and not bytes_t and mar[0] == "ok" and plain_json(mar[1]):
-        if law is not None:
-            wire_laws(case, T, v, config, law)
-        if cdc[0] != "ok":
-            fail("valid-json", "Codec.encode raised for a (T, v) inside the quantifier", codec=show(cdc))
-        elif e is None or e is std_dumps:
-            if not isinstance(cdc[1], bytes):
-                fail("valid-json", "encoded value is not bytes", codec=show(cdc))
-            else:
-                p = raw(json.loads, cdc[1])
-                if not same_out(p, mar):
-                    fail("valid-json", "json.loads(encoded) is not marshal(v, t=T)", encoded=show(cdc), parsed=show(p),
-                         marshal=show(mar))
-    if case.get("inq") and paired and cdc[0] == "ok":
+    if case.get("inq") and not bytes_t:
         c01 = raw(lambda: typelib.unmarshal(T, typelib.marshal(v, t=T)))
         c01_ok = c01[0] == "ok" and same(c01[1], v)
-        demanded = bool(case.get("c01_safe")) and (c01_ok or not case.get("union"))
-        if demanded:
-            rt = raw(lambda: typelib.codec(T, **ekw, **dkw).decode(typelib.codec(T, **ekw, **dkw).encode(v)))
-            if not (rt[0] == "ok" and same(rt[1], v)):
-                fail("roundtrip", "codec(T).decode(codec(T).encode(v)) is not v", got=show(rt), c01_direct_ok=c01_ok,
-                     encoded=show(cdc))
+        # where a union / optional / multi-valued literal is involved, which member handles v is C08's subject:
+        # these clauses are then demanded only where C01's own statement holds for (T, v)
+        in_scope = bool(case.get("c01_safe")) and (c01_ok or not case.get("union"))
+        if in_scope:
+            wire_ok = mar[0] == "ok" and plain_json(mar[1])
+            if wire_ok and law is not None:
+                wire_laws(case, T, v, config, law)
+            if not wire_ok:
+                # json.loads only ever returns dict/list/str/int/float/bool/None: nothing can parse to this value
+                fail("valid-json", "marshal(v, t=T) is not plain JSON data (no JSON text parses to it)", marshal=show(mar))
+            if cdc[0] != "ok":
+                fail("valid-json", "Codec.encode raised for a (T, v) inside the quantifier", codec=show(cdc), marshal=show(mar))
+            elif e is None or e is std_dumps:
+                if not isinstance(cdc[1], bytes):
+                    fail("valid-json", "encoded value is not bytes", codec=show(cdc))
+                else:
+                    p = raw(json.loads, cdc[1])
+                    if not same_out(p, mar):
+                        fail("valid-json", "json.loads(encoded) is not marshal(v, t=T)", encoded=show(cdc), parsed=show(p),
+                             marshal=show(mar))
+            if paired:
+                rt = raw(lambda: typelib.codec(T, **ekw, **dkw).decode(typelib.codec(T, **ekw, **dkw).encode(v)))
+                if not (rt[0] == "ok" and same(rt[1], v)):
+                    fail("roundtrip", "codec(T).decode(codec(T).encode(v)) is not v", got=show(rt), c01_direct_ok=c01_ok,
+                         encoded=show(cdc))
     # -- user-supplied marshaller / unmarshaller objects are used as given
     if (rng.random() < 0.1 if user_clause is None else user_clause) and not bytes_t:
         m, u = user_marshaller, user_unmarshaller
@@ -651,7 +657,8 @@ def search(run: lib.Run, broken):
     if broken:
         n = run.budget(2500, 12000)
     depth = run.budget(3, 5)
-    stream = list(getattr(run, "mismatch_cases", []))[:200] + case_stream(rng, n, depth)
+    sweep = [(c, cfg) for c in U.sweep_cases(rng) for cfg in ("stdlib", "default", "tag")]
+    stream = list(getattr(run, "mismatch_cases", []))[:200] + sweep + case_stream(rng, n, depth)
     fails, nev, nrt = [], 0, 0
     law = collections.Counter()
     clauses = collections.Counter()
@@ -677,7 +684,11 @@ def search(run: lib.Run, broken):
     for k, v in law.items():
         run.laws["oracle:" + k] = v
     run.search_stats["oracle"] = {
-        "evaluations": nev, "distinct_nontrivial": nrt, "failures": len(fails), "failures_by_clause": dict(clauses),
+        "evaluations": nev, "distinct_nontrivial": nrt, "structured_sweep_cases": len(sweep),
+        "structured_sweep": "every structured flavour (dataclass plain/slots/frozen/kw_only, NamedTuple, TypedDict total/non-total, "
+                            "annotated plain class, __slots__ class) x member kinds whose marshalled form differs from the value "
+                            "(Decimal, Fraction, UUID, Path, date, datetime, time, timedelta, enum, nested structured of 4 flavours, "
+                            "list/dict/Optional/tuple/set of those) x {stdlib json, default, tagging} coder pairs", "failures": len(fails), "failures_by_clause": dict(clauses),
         "rule": "each case: the encode entry points pairwise, typelib.encode with and without t, the decode entry points "
                 "pairwise on 2-7 inputs (produced bytes, damaged, foreign JSON, str/bytearray/memoryview carriers), "
                 "bytes-like T verbatim, json.loads(encoded) == marshal(v), decode(encode(v)) == v where C01 is not "
